@@ -205,20 +205,13 @@ Fixpoint dyn_cflist (r : rid) (chs : list (option channel)) (idx : nat) (freqs :
     else Panic
   end.
 
+(* ChMaskCntl of the 16-channel plans (RP002): 0 = channels 0..15, 6 = all channels on, everything else RFU (rejected) *)
 Definition dyn_mask_update (m : mask) (ctl : N) (lo hi : N) : outcome (option mask) :=
-  if ctl <=? 3 then
-    match set_bank m (N.to_nat (ctl * 2)) lo with
-    | Val m1 => match set_bank m1 (S (N.to_nat (ctl * 2))) hi with Val m2 => Val (Some m2) | Panic => Panic | OutOfDraws => OutOfDraws end
+  if ctl =? 0 then
+    match set_bank m 0 lo with
+    | Val m1 => match set_bank m1 1 hi with Val m2 => Val (Some m2) | Panic => Panic | OutOfDraws => OutOfDraws end
     | Panic => Panic | OutOfDraws => OutOfDraws
     end
-  else if ctl =? 4 then
-    match set_bank m 8 lo with Val m1 => Val (Some m1) | Panic => Panic | OutOfDraws => OutOfDraws end
-  else if ctl =? 5 then
-    let w := lo + 256 * hi in
-    (* ((ch_mask & (1 << k)) * 0xFF) as u8 -- u16 arithmetic: Panic (debug overflow) when the product exceeds 65535 *)
-    let bank k := (N.land w (N.shiftl 1 k)) * 0xFF in
-    if 65535 <? bank 8 then Panic else
-    Val (Some (map (fun k => bank k mod 256) [0; 1; 2; 3; 4; 5; 6; 7; 8]))
   else if ctl =? 6 then Val (Some (repeat 0xFF 8 ++ [nthN m 8]))
   else Val None.
 
